@@ -283,25 +283,59 @@ func Cheap(root *ggql.Root) (out string) {
 	return root.SDL(true, true) + fmt.Sprintf("\n# package switches: Relaxed=%v Sort=%v MaxResolveDepth=%d\n", ggql.Relaxed, ggql.Sort, ggql.MaxResolveDepth)
 }
 
-func literalFor(t ggql.Type, depth int) string {
+// givable tells whether a value can be written for an input type at all: an
+// input object whose required fields lead back to itself cannot be given one,
+// and a literal that stops half way would break several rules at once - which
+// of them the library reports first is decided by Go's map iteration order.
+func givable(t ggql.Type, seen map[string]bool) bool {
 	switch tt := t.(type) {
 	case *ggql.NonNull:
-		return literalFor(tt.Base, depth)
+		return givable(tt.Base, seen)
 	case *ggql.List:
-		return "[" + literalFor(tt.Base, depth) + "]"
+		return givable(tt.Base, seen)
+	case *ggql.Input:
+		if seen[tt.Name()] {
+			return false
+		}
+		seen[tt.Name()] = true
+		defer delete(seen, tt.Name())
+		for _, f := range tt.Fields() {
+			if _, ok := f.Type.(*ggql.NonNull); ok && !givable(f.Type, seen) {
+				return false
+			}
+		}
+	}
+	return true
+}
+
+// literalFor writes a value for an argument of type t (for an input object its
+// required fields only); null when no value can be given at all.
+func literalFor(t ggql.Type, depth int) string {
+	if depth == 0 && !givable(t, map[string]bool{}) {
+		return "null"
+	}
+	return literalRec(t, depth)
+}
+
+func literalRec(t ggql.Type, depth int) string {
+	switch tt := t.(type) {
+	case *ggql.NonNull:
+		return literalRec(tt.Base, depth)
+	case *ggql.List:
+		return "[" + literalRec(tt.Base, depth) + "]"
 	case *ggql.Enum:
 		if vs := tt.Values(); len(vs) > 0 {
 			return string(vs[0].Value)
 		}
 		return "null"
 	case *ggql.Input:
-		if depth > 2 {
+		if depth > 8 {
 			return "{}"
 		}
 		var parts []string
 		for _, f := range tt.Fields() {
 			if _, ok := f.Type.(*ggql.NonNull); ok {
-				parts = append(parts, f.Name()+": "+literalFor(f.Type, depth+1))
+				parts = append(parts, f.Name()+": "+literalRec(f.Type, depth+1))
 			}
 		}
 		return "{" + strings.Join(parts, ", ") + "}"
